@@ -565,3 +565,28 @@ OBLIGATIONS = [
        nat_sort, setup=_setup, doc="sort_by_time: permutation, ordered by (time, channel), stable"),
     Ob("twin_contain", sym_twin_contain, lambda tier: [dict(nt=2, nc=2)], None, setup=_setup, expect_cex=True),
 ]
+
+
+MUTANTS = [
+    dict(name="containment uses strict end", file="strax/processing/general.py", only="contain,split_contain",
+         old="        if b_starts[b_i] <= a_starts[a_i] and a_ends[a_i] <= b_ends[b_i]:",
+         new="        if b_starts[b_i] <= a_starts[a_i] and a_ends[a_i] < b_ends[b_i]:"),
+    dict(name="containment skips containers with < instead of <=", file="strax/processing/general.py", only="contain,split_contain",
+         old="        while b_i < len(b_starts) and b_ends[b_i] <= a_starts[a_i]:",
+         new="        while b_i < len(b_starts) and b_ends[b_i] < a_starts[a_i]:"),
+    dict(name="touching window right bound inclusive", file="strax/processing/general.py", only="touching",
+         old="        while right_i <= n - 1 and thing_start[right_i] < t1 + window:",
+         new="        while right_i <= n - 1 and thing_start[right_i] <= t1 + window:"),
+    dict(name="overlap_indices off by one", file="strax/processing/general.py", only="overlap",
+         old="    b_end = min(n_b, s + n_a)", new="    b_end = min(n_b, s + n_a + 1)"),
+    dict(name="diff forgets the running maximum", file="strax/processing/general.py", only="diff",
+         old="        max_endtime = max(max_endtime, endtime)", new="        max_endtime = endtime"),
+    dict(name="break found one gap too early", file="strax/processing/general.py", only="break",
+         old='        if d["time"] >= latest_end_seen + safe_break:', new='        if d["time"] > latest_end_seen + safe_break - 2:'),
+    dict(name="time to next interval uses start instead of end", file="strax/processing/general.py", only="prevnext",
+         old='            times_to_next[thing_ind] = veto_interval["time"] - current_event_endtime',
+         new='            times_to_next[thing_ind] = veto_interval["time"] - current_event_time'),
+    dict(name="sort key ignores the channel", file="strax/processing/general.py", only="sort",
+         old='    sort_key = (x["time"] - x["time"].min()) * max_channel_plus_one + channel',
+         new='    sort_key = (x["time"] - x["time"].min()) * max_channel_plus_one'),
+]
